@@ -11,6 +11,7 @@ import (
 	"io"
 	"net/http"
 	"net/url"
+	"sort"
 	"strconv"
 	"strings"
 	"unsafe"
@@ -118,14 +119,42 @@ type fragReader struct {
 	frag   bool
 	cutAt  int // -1: none; else the stream ends with an error after cutAt bytes
 	closed bool
+	// fragmentation: the stream arrives in up to four segments; the boundaries are drawn once, as
+	// sixteenths of the length, the first time the stream is read. Neither the number of draws nor the
+	// number of scheduling points depends on the exact length or on the reader's buffer size — bodies
+	// can carry text that differs from process to process (a stack trace with goroutine numbers and
+	// addresses in a 500 answer), and one seed has to stay one schedule.
+	bounds []int
+	drawn  bool
+}
+
+func (r *fragReader) draw() {
+	r.drawn = true
+	nseg := 1 + kern.Choose(4, "frag")
+	for i := 1; i < nseg; i++ {
+		b := len(r.data) * (1 + kern.Choose(15, "frag-at")) / 16
+		if b > 0 && b < len(r.data) {
+			r.bounds = append(r.bounds, b)
+		}
+	}
+	sort.Ints(r.bounds)
 }
 
 func (r *fragReader) Read(p []byte) (int, error) {
+	if r.frag && !r.drawn {
+		r.draw()
+	}
 	if r.cutAt >= 0 && r.pos >= r.cutAt {
 		return 0, io.ErrUnexpectedEOF
 	}
 	if r.pos >= len(r.data) {
 		return 0, io.EOF
+	}
+	for len(r.bounds) > 0 && r.bounds[0] <= r.pos {
+		if r.bounds[0] == r.pos {
+			kern.Yield("net-read") // the next segment has not arrived yet: somebody else may run
+		}
+		r.bounds = r.bounds[1:]
 	}
 	n := len(p)
 	if rem := len(r.data) - r.pos; n > rem {
@@ -134,12 +163,8 @@ func (r *fragReader) Read(p []byte) (int, error) {
 	if r.cutAt >= 0 && r.pos+n > r.cutAt {
 		n = r.cutAt - r.pos
 	}
-	if r.frag && n > 1 {
-		n = 1 + kern.Choose(n, "frag")
-		if n > len(p) {
-			n = len(p)
-		}
-		kern.Yield("net-read")
+	if len(r.bounds) > 0 && r.pos+n > r.bounds[0] {
+		n = r.bounds[0] - r.pos
 	}
 	copy(p, r.data[r.pos:r.pos+n])
 	r.pos += n
